@@ -268,9 +268,14 @@ func PoolGet(p *sync.Pool) interface{} {
 		pstats.Nil++
 		if p.New != nil {
 			// like the real pool: an empty pool with a New function never returns nil
+			var v interface{}
 			poolMu.Unlock()
-			v := p.New() // library code: must not run under the pool's own lock
-			poolMu.Lock()
+			func() {
+				// library code: must not run under the pool's own lock; it may
+				// panic (an injected fault at one of its yields), so re-lock in a defer
+				defer poolMu.Lock()
+				v = p.New()
+			}()
 			if id, _, _ := viewOf(v); id != 0 {
 				sp.owner[id] = tid
 			}
